@@ -21,6 +21,7 @@ def streams(rng, tier, seed):
     progs = [ec.gen_flat(rng, sched=True) for _ in range(n)] + [ec.gen_nested(rng, both=False) for _ in range(n // 3)]
     progs += [ec.gen_nscript(rng) for _ in range(n // 4)]       # wake-ups of a node the readiness gate holds back
     progs += [ec.gen_try_sched(rng) for _ in range(n // 3)]     # wake-ups pending in a child whose cycle an exception ends
+    progs += [ec.gen_sched_capture(rng) for _ in range(n // 3)]  # wake-ups of a scheduler node whose own evaluation throws and is captured
     return [ec.engine_stream("engine-sched", progs)]
 
 
